@@ -731,7 +731,7 @@ func (u *Unit) callByContract(call *ast.CallExpr, f *types.Func, con *Contract, 
 		srt := u.reg.sortOf(t)
 		var v Val
 		if pure {
-			if dv, ok := u.pureDefinedResult(con, i, n, rv, st); ok && dv.S == srt {
+			if dv, ok := u.pureDefinedResult(con, i, n, rv, st); ok && dv.S == srt && !con.Opaque {
 				v = dv
 				v.GT = t
 			} else {
@@ -745,7 +745,7 @@ func (u *Unit) callByContract(call *ast.CallExpr, f *types.Func, con *Contract, 
 		res = append(res, v)
 	}
 	rv.results = res
-	if con != nil {
+	if con != nil && !con.Opaque {
 		for _, c := range con.Ensures {
 			st.assume(u.evalClause(c, st, pre, nil, rv))
 		}
@@ -794,8 +794,22 @@ func (u *Unit) pureResult(f *types.Func, i int, srt string, t types.Type, recv *
 		as = append(as, a.T)
 		ss = append(ss, a.S)
 	}
-	as = append(as, st.epoch)
-	ss = append(ss, "Int")
+	// the result depends on the heap locations the function may read (syntactic read set); when the
+	// read set is unknown or large, on the heap epoch
+	rs := u.prog.ReadSets[f.Origin()]
+	if rs == nil || rs["!unknown"] || len(rs) > 16 {
+		as = append(as, st.epoch)
+		ss = append(ss, "Int")
+	} else {
+		for _, k := range sortedKeys(rs) {
+			srtK := u.sortOfHeapKey(k)
+			if srtK == "" {
+				continue
+			}
+			as = append(as, u.heapTerm(st, k, srtK))
+			ss = append(ss, srtK)
+		}
+	}
 	u.reg.declare(name, ss, srt)
 	return Val{T: app(name, as...), S: srt, GT: t}
 }
